@@ -1,5 +1,6 @@
 """C20 - secrets stay out of logs (level >= INFO) and out of result messages."""
 import logging
+import os
 import struct
 
 from kmip.core import enums
@@ -26,7 +27,7 @@ def plan(tier):
                 'aware mutations of canary-carrying requests) and the known internal-error paths; a root logging handler '
                 'scans every record of level >= INFO (message, arguments, formatted traceback) and every result message '
                 'for canary windows in raw, hex, base64 and escaped form; a cell is (logger, level, source of the record)',
-        'min_monitor': {'secret_items_with_wrong_lengths': 2000, 'derivations_repeated_with_template_attributes': 300, 'records_scanned': 3000, 'canaries_planted': 300, 'result_messages_scanned': 1000,
+        'min_monitor': {'hosted_server_records_seen': 30, 'secret_items_with_wrong_lengths': 2000, 'derivations_repeated_with_template_attributes': 300, 'records_scanned': 3000, 'canaries_planted': 300, 'result_messages_scanned': 1000,
                         'failure_paths_logged': 200, 'clients_configured_with_a_password': 100,
                         'crypto_uses_of_canary_keys': 1000},
         'assumptions': ['DEBUG records are allowed to carry encodings (the property is about the default level INFO)',
@@ -36,7 +37,7 @@ def plan(tier):
 
 def cases(tier, seed):
     n = 96 if tier == 'quick' else 640
-    return [{'run': i} for i in range(n)]
+    return [{'run': i} for i in range(n)] + [{'hosted': i} for i in range(6 if tier == 'quick' else 36)]
 
 
 def setup(ctx):
@@ -72,7 +73,102 @@ def scan_result(ctx, res, what):
                               'a result message contains a %s canary: %r' % (hit[0], it['message'][:160]), None)
 
 
+def run_hosted(ctx, case):
+    """The server object as an application hosts it: `KmipServer(...)` is constructed with its own configuration (logging
+    level INFO, WARNING or ERROR, own log file), inside a process that has logging of its own (`basicConfig(level=INFO)`: a
+    root handler without a level).  Sessions of that server then serve requests carrying canary keys, passwords and
+    plaintext.  Whatever reaches the application's handler or the server's log file at the configured level - through
+    whatever logger, at whatever record level - holds no canary and no whole message encoding."""
+    from kmip.services.server import server as server_mod
+    rng = ctx.rng()
+    rig.install_clock(rig.VClock(step=1))
+    level = ('INFO', 'INFO', 'WARNING', 'ERROR')[case['hosted'] % 4]
+    root = logging.getLogger()
+    klog = logging.getLogger('kmip.server')
+    saved = (root.level, klog.level, list(klog.handlers), klog.propagate)
+
+    class App(logging.Handler):
+        def __init__(self):
+            logging.Handler.__init__(self)
+            self.records = []
+
+        def emit(self, record):
+            try:
+                self.records.append((record.name, record.levelname, record.getMessage()))
+            except Exception:
+                pass
+    app = App()
+    with rig.scratch_dir() as d:
+        for f in ('cert.pem', 'key.pem', 'ca.pem'):
+            open(os.path.join(d, f), 'w').write('x')
+        os.mkdir(d + '/pol')
+        try:
+            root.setLevel(logging.INFO)
+            root.addHandler(app)
+            ks = server_mod.KmipServer(hostname='127.0.0.1', port=5696, certificate_path=d + '/cert.pem', key_path=d + '/key.pem',
+                                       ca_path=d + '/ca.pem', auth_suite='Basic', config_path=None, log_path=d + '/server.log',
+                                       policy_path=d + '/pol', enable_tls_client_auth=False, tls_cipher_suites='TLS_RSA_WITH_AES_128_CBC_SHA',
+                                       logging_level=level, database_path=d + '/db.sqlite')
+            srv = rig.Server(d + '/db.sqlite')
+            try:
+                cert = rig.make_cert(('alice',), 'client')
+                frames = []
+                for kind in rng.sample(store.KINDS, 4):
+                    val = canary(ctx, rng, 'value:' + kind, 32)
+                    pw = text_canary(ctx, rng, 'password')
+                    secret, _ = store.make_secret(kind, val)
+                    attrs_ = common_attrs(names=['c20h-%s-%d' % (kind, case['hosted'])])
+                    v = rng.choice(rig.VERSIONS)
+                    frames.append(rig.encode_request(rig.build_request(v, [op_register(kind, secret, attrs_)], credential=('alice', pw)), v))
+                    frames.append(rig.encode_request(rig.build_request(v, [op_get('1')]), v))
+                    frames.append(frames[-2][:len(frames[-2]) // 2])        # a frame that cannot be parsed
+                for fr in frames:
+                    if len(fr) >= 8:
+                        fr = fr[:4] + struct.pack('!I', len(fr) - 8) + fr[8:]
+                    rig.session_roundtrip(srv.engine, fr, cert, rng, name='hosted')
+                    ctx.ev()
+            finally:
+                srv.close()
+            for h in klog.handlers:
+                try:
+                    h.flush()
+                except Exception:
+                    pass
+            texts = [('application handler', n_, l_, m_) for n_, l_, m_ in app.records]
+            try:
+                for line in open(d + '/server.log', errors='replace'):
+                    texts.append(('server log file', 'kmip.server', '-', line))
+            except OSError:
+                pass
+            ctx.count('hosted_servers')
+            for where, lname, lvl, text in texts:
+                ctx.count('hosted_server_records_seen')
+                hit = ctx.scan.scan_text(text)
+                if hit:
+                    ctx.violation('hosted|%s|%s|%s' % (where.split()[0], lvl, hit[0]), 'with the server configured at %s, a %s record of logger %s in the '
+                                  '%s contains a %s canary: %r' % (level, lvl, lname, where, hit[0], text[:160]), None)
+                    break
+                if 'encoding' in text.lower() and len(text) > 400:
+                    ctx.violation('hosted|%s|%s|message-encoding' % (where.split()[0], lvl), 'with the server configured at %s, a %s record of logger %s '
+                                  'in the %s holds a whole message encoding: %r' % (level, lvl, lname, where, text[:120]), None)
+                    break
+        finally:
+            root.removeHandler(app)
+            for h in list(klog.handlers):
+                if h not in saved[2]:
+                    klog.removeHandler(h)
+                    try:
+                        h.close()
+                    except Exception:
+                        pass
+            root.setLevel(saved[0])
+            klog.setLevel(saved[1])
+            klog.propagate = saved[3]
+
+
 def run_case(ctx, case):
+    if 'hosted' in case:
+        return run_hosted(ctx, case)
     rng = ctx.rng()
     rig.install_clock(rig.VClock(step=1))
     cert = rig.make_cert(('alice',), 'client')
